@@ -25,6 +25,9 @@ Extras == << <<Field("a", 0, Arr(Arr(U(8), 2), 3), 0), Field("b", 1, Arr(Arr(I(8
              <<Field("a", 0, I(11), 0), Field("b", 1, U(40), 0)>>,
              <<Field("a", 1, U(9), 0), Field("b", 0, I(33), 0)>>,
              <<Field("a", 0, U(17), 0), Field("b", 1, I(22), 0)>>,
+             (* two fields sharing one id: ties are serialized in declaration order by every codec *)
+             <<Field("a", 0, U(4), 0), Field("b", 0, I(12), 0)>>,
+             <<Field("a", 2, U(3), 0), Field("b", 1, Str, 0), Field("c", 1, U(13), 0)>>,
              (* an enum that is NEVER the type of a field itself, only of array elements / optionals *)
              <<Field("a", 0, Arr(En("Eo"), 2), 1), Field("b", 1, Opt(En("Eo")), 1)>>,
              <<Field("a", 1, Dyn(En("Eo")), 1), Field("b", 0, U(3), 0)>> >>
